@@ -1399,6 +1399,10 @@ def _optimizer_gathers_every_method(ctx, model, m):
         stored = False
         kind_guard = False
         guards = []
+        # the names the loop must not pass over: a path that such a name
+        # cannot take (its tests on the name alone say "a dunder other than
+        # __call__") is no skip of a method
+        feasible = {"map_foo": True, "__call__": True, "rec": True}
         for it in path:
             if it[0] == "stmt" and isinstance(it[1], ast.Assign) and any(
                     isinstance(t, ast.Subscript) and isinstance(t.value, ast.Name)
@@ -1413,10 +1417,22 @@ def _optimizer_gathers_every_method(ctx, model, m):
                          if isinstance(x, ast.Name)} | {
                     x.attr for x in ast.walk(it[1])
                     if isinstance(x, ast.Attribute)}
-                if ("startswith" in calls and not it[2]) or (
-                        it[2] and "isinstance" in calls and
-                        names & {"property", "cached_property"}):
+                free = {x.id for x in ast.walk(it[1]) if isinstance(x, ast.Name)}
+                if free == {name} and calls <= {"startswith", "endswith"}:
+                    from ..absint import Interp, Raised
+                    for sample in feasible:
+                        try:
+                            v = bool(Interp(max_steps=200).eval(
+                                it[1], {name: sample}))
+                        except (AnalysisError, Raised):
+                            continue
+                        if v != it[2]:
+                            feasible[sample] = False
+                if it[2] and "isinstance" in calls and \
+                        names & {"property", "cached_property"}:
                     kind_guard = True
+        if not any(feasible.values()):
+            kind_guard = True
         if stored:
             n_store += 1
         elif not kind_guard:
